@@ -469,7 +469,7 @@ def instances(tier):
                            ("max", "real", "real"), ("min", "real", "real"), ("eq", "real", "real"), ("lt", "real", "real"),
                            ("le", "real", "real"), ("ge", "real", "real"), ("gt", "real", "real"), ("ne", "real", "real"),
                            ("and_", "bool", "bool"), ("or_", "bool", "bool"), ("xor", "bool", "bool"),
-                           ("logaddexp", "log", "log"), ("add", "log", "log"), ("max", "log", "log"), ("min", "log", "log"),
+                           ("logaddexp", "logfinite", "logfinite"), ("add", "log", "log"), ("max", "log", "log"), ("min", "log", "log"),
                            ("safesub", "real", "real"), ("safediv", "real", "pos"),
                            ("floordiv", ("int", 5), ("int", 4)), ("mod", ("int", 5), ("int", 4)), ("add", ("int", 5), ("int", 4)), ("mul", ("int", 5), ("int", 4))]:
         out.append(("agree2", opn, car, cary))
